@@ -48,12 +48,16 @@ def disagreement(name, a):
         return {"if": {"maximum": a}, "then": False}
     if name == "bool_sub":
         return {"properties": {"k": False}, "extends": {"maximum": a}}
+    if name == "id_ref":
+        return {"id": "http://x.test/r.json", "$id": "http://x.test/r.json", "definitions": {"n": {"minimum": a}},
+                "properties": {"k": {"$ref": "r.json#/definitions/n"}}}
     if name == "float_int":
         return {"type": "integer", "divisibleBy": 2, "multipleOf": 3}
     raise ValueError(name)
 
 
 NAMES = ["excl_bool", "excl_num", "const", "if", "float_int"]
+CLI_NAMES = NAMES + ["id_ref"]
 
 
 def select(name, kind="int"):
@@ -140,7 +144,7 @@ def defaults():
     return Spec([("b", bool), ("which", int)], pre, body, tags=["default"])
 
 
-INSTANCES = ["null", "5", "6", "4", "6.0", "true"]
+INSTANCES = ["null", "5", "6", "4", "6.0", "true", '{"k": 4}', '{"k": 6}']
 
 
 def cli_selects(name):
@@ -249,7 +253,9 @@ def conditions(tier, seed, active):
 
     for name in NAMES:
         c("select/%s/int" % name, "select", dict(name=name), ["d3", "d4", "d6", "d7"])
+    for name in CLI_NAMES:
         c("cli/%s" % name, "cli_selects", dict(name=name), ["d3", "d4", "d6", "d7"])
+    c("select/id_ref/obj", "select", dict(name="id_ref", kind="obj"), ["d3", "d4", "d6", "d7"])
     c("select/bool_sub/obj", "select", dict(name="bool_sub", kind="obj"), ["d3", "d4", "d6", "d7"])
     c("defaults", "defaults", {}, ["default"])
     for n in ((1, 2) if tier == "quick" else (1, 2, 3)):
